@@ -284,6 +284,8 @@ def execute(scn_cls, seed=None, config=None, steps=None, keep_events=False, scra
                 wctx.__enter__()
                 warnings.simplefilter("error", RuntimeWarning)
                 warnings.simplefilter("error", UserWarning)
+                # ... and any category when the warning is attributed to a module of the library itself
+                warnings.filterwarnings("error", module=r"probables(\..*)?$")
                 ctx.fault("warnings_are_errors")
             scn.setup(config)
             if replay:
@@ -302,7 +304,8 @@ def execute(scn_cls, seed=None, config=None, steps=None, keep_events=False, scra
                         break
                     if "alt" not in st:
                         # which public spelling of the call to use: op(key, ...) or op_alt(hashes(key), ...)
-                        st["alt"] = rng.chance(1, 4)
+                        # (True / "altkw": op_alt; "kw" / "altkw": arguments by their documented names)
+                        st["alt"] = rng.weighted([(11, False), (4, True), (3, "kw"), (2, "altkw")])
                     if "nb" not in st:
                         st["nb"] = rng.chance(1, 3)
                     st = json.loads(canon(st))
